@@ -33,10 +33,60 @@ def geometry_history(ctx):
     return L, 0, n, {"flavour": flav, "blocks": n, "pages": (n - 2 + 4063) // 4064}
 
 
+def salvage_history(ctx):
+    """the salvage API (adfGetDelEnt / adfFreeDelList / adfUndelEntry): no deleted entry at all, several, the highest block of the
+    volume being a deleted header (blocks up to it are taken first), deleted entries in a sub-directory (undelete with a non-root
+    parent), entries undeleted again"""
+    rng = ctx.rng
+    flav = rng.choice(gen.FLAVOURS)
+    bs = 512 if flav & 1 else 488
+    L = gen.dev_create("DD", flav) + ["mountdev 0", "mount 0 0", "dellist"]
+    sub = hexs(b"sub")
+    L += ["mkdir - %s" % sub, "open 0 - %s w" % hexs(b"keep"), "write 0 3 %d" % (3 * bs), "close 0"]
+    kind = rng.choice(["none", "some", "last-block", "last-block", "subdir"])
+    if kind == "last-block":
+        # take every block up to the last one, so that the next header lands on block 1759; then two more entries (they wrap to block 2)
+        L += ["free"]
+        L.append("TAKE")
+        L += ["mkdir - %s" % hexs(b"lastdir"), "open 0 - %s w" % hexs(b"wrapped"), "close 0", "mkdir - %s" % hexs(b"wrapped2")]
+        L += ["lookup - %s" % hexs(b"lastdir"), "rm - %s" % hexs(b"lastdir"), "rm - %s" % hexs(b"wrapped"), "rm - %s" % hexs(b"wrapped2")]
+    elif kind == "some":
+        for i in range(rng.randint(1, 4)):
+            nm = hexs(b"gone%d" % i)
+            L += ["open 0 - %s w" % nm, "write 0 4 %d" % rng.choice([0, 10, 2 * bs]), "close 0"] if rng.random() < 0.6 else ["mkdir - %s" % nm]
+        for i in range(4):
+            L += ["lookup - %s" % hexs(b"gone%d" % i), "rm - %s" % hexs(b"gone%d" % i)]
+    elif kind == "subdir":
+        nm = hexs(b"inner")
+        L += ["open 0 %s %s w" % (sub, nm), "write 0 4 %d" % bs, "close 0", "mkdir %s %s" % (sub, hexs(b"innerdir")),
+              "lookup %s %s" % (sub, nm), "rm %s %s" % (sub, nm), "dellist", "undel %s L %s" % (sub, nm),
+              "lookup %s %s" % (sub, hexs(b"innerdir")), "rm %s %s" % (sub, hexs(b"innerdir")), "undel %s L %s" % (sub, hexs(b"innerdir"))]
+    L += ["dellist", "dellist"]
+    if kind in ("some", "last-block") and rng.random() < 0.6:
+        L += ["undel - L %s" % hexs(b"gone0" if kind == "some" else b"lastdir"), "dellist"]
+    L += ["umount", "umountdev"]
+    return L, 0, 1760, {"flavour": flav, "kind": kind, "blocks": 1760}
+
+
+def expand_take(ctx, L):
+    """'TAKE' -> an allocation of every free block but the last one of the volume (asked from the library first)"""
+    if "TAKE" not in L:
+        return L
+    i = L.index("TAKE")
+    rc, out, err, wd = common.run_script(ctx, "\n".join(L[:i] + ["umount", "umountdev"]) + "\n")
+    res = common.parse_results(out)
+    free = int(common.kv((res.get(i) or ["err free=0"])[-1])[1].get("free", 0))
+    # the allocator hands out blocks upwards from the root and wraps: blocks 2..879 (878 of them) are all free at this point, the rest
+    # of the free blocks lie between the entries made so far and block 1759; all of those but the last are taken
+    return L[:i] + ["alloc %d" % max(1, free - 879)] + L[i + 1:]
+
+
 def run(ctx):
     proof = common.proof_status(ctx)
     rng = ctx.rng
     gens = []
+    for i in range(14 if ctx.tier == "quick" else 200):
+        gens.append(("salvage-history", lambda c: (lambda r: (expand_take(c, r[0]), r[1], r[2], r[3]))(salvage_history(c))))
     for i in range(6 if ctx.tier == "quick" else 120):
         gens.append(("bitmap-page-boundary-geometry", geometry_history))
     b1 = c01.builders(ctx)
